@@ -127,6 +127,11 @@ pub trait Compiled {
 pub trait Ctx {
     /// Err = undeserializable bundle (not a proof)
     fn native(&self, b: &Value) -> Result<NativeV, String>;
+    /// `native` plus the full `Debug` rendering of the native verifier's error (C15 classifies
+    /// structural vs. cryptographic rejections on it). Same verdict as `native`.
+    fn native_detail(&self, b: &Value) -> Result<(NativeV, Option<String>), String> {
+        self.native(b).map(|n| (n, None))
+    }
     /// build the verification circuit for the shape of `b`
     fn compile<'a>(&'a self, b: &Value) -> Result<Result<Box<dyn Compiled + 'a>, CircV>, String>;
     /// C15 extra entry points: (entry point name, outcome) — every call under `guarded`
@@ -511,6 +516,7 @@ pub fn probe_shape(spec: &str) -> Option<Box<dyn Shape>> {
                     Some(match k {
                         "fib" => TAir::Fib { rows },
                         "add" => TAir::Add { rows },
+                        "addrl" => TAir::AddRl { rows },
                         "sub" => TAir::Sub { rows },
                         "pv" => TAir::Pv { rows },
                         "mul" => TAir::Mul { degree: 2, rows, reps: 3, prep: true },
